@@ -86,6 +86,10 @@ def registry(tf, tfl):
       "ScaleInitializer": (kfl.ScaleInitializer, dict(output_min=None, output_max=None), "init", (2, 2)),
       "BiasInitializer": (kfl.BiasInitializer, dict(output_min=None, output_max=None), "init", (2,)),
       "FeatureConfig": (C.FeatureConfig, dict(name="f"), "config", None),
+      "AggregateFunctionConfig": (lambda **kw: C.AggregateFunctionConfig(feature_configs=fcs(), **kw), dict(), "config", None),
+      "CalibratedLatticeEnsembleRtlConfig": (lambda **kw: C.CalibratedLatticeEnsembleConfig(feature_configs=fcs(), **kw),
+                                             dict(lattices="rtl_layer", num_lattices=3, lattice_rank=2), "model_config",
+                                             tfl.premade.CalibratedLatticeEnsemble),
       "CalibratedLatticeConfig": (lambda **kw: C.CalibratedLatticeConfig(feature_configs=fcs(), **kw), dict(), "model_config", tfl.premade.CalibratedLattice),
       "CalibratedLinearConfig": (lambda **kw: C.CalibratedLinearConfig(feature_configs=fcs(), **kw), dict(), "model_config", tfl.premade.CalibratedLinear),
       "CalibratedLatticeEnsembleConfig": (lambda **kw: C.CalibratedLatticeEnsembleConfig(feature_configs=fcs(), **kw),
@@ -148,6 +152,14 @@ def one_round_trip(tf, tfl, reg, cls, overrides, rng, save_formats=()):
   step = "get_config"
   try:
     import tf_keras
+    if kind in ("model_config", "config"):
+      # the documented way for the tfl.configs classes: from_config(config, custom_objects=...), with NO custom object
+      # scope active (inside a scope a from_config that forgets to forward its custom_objects would go unnoticed)
+      step = "from_config_explicit_custom_objects"
+      o3 = type(obj).from_config(obj.get_config(), custom_objects=custom)
+      if canon(o3.get_config()) != canon(obj.get_config()):
+        raise ValueError("config rebuilt with explicit custom_objects differs")
+      step = "get_config"
     with tf_keras.utils.custom_object_scope(custom):
       if kind == "model_config":
         cfg1 = obj.get_config()
